@@ -94,7 +94,10 @@ def main(tier, seed):
         if SP.spellable(spec):
             texts.append(SP.spell(spec, r2, {'varied': True})[0])
     texts += ['', 'Table é {\n "日本" int [note: \'ü😀\']\n}\n', 'Table t {\n id int\n', 'Table t {\n id int [k: \'v\']\n}\n',
-              'Table t {\r\n id int\r\n}\r\n']
+              'Table t {\r\n id int\r\n}\r\n',
+              # the text must arrive untouched on every route: no Unicode normalisation, case folding or character mapping
+              'Table "cafe\u0301" {\n "e\u0301" int [note: \'A\u030a \u212b \ufb01 \uff21 \u1e9e \u0130 \u017f\']\n}\nNote n {\n \'x\u0301 \u00a0 \u200d \u00ad\'\n}\n',
+              'Enum "\u2126" {\n "\u03a9"\n "K"\n "\u212a"\n}\nTable t {\n c "\u2126"\n d "\u03a9"\n}\n']
     tmpdir = tempfile.mkdtemp(prefix='verif_c12_')
     reqs, obs = [], []
     try:
